@@ -75,6 +75,9 @@ type caseDesc struct {
 	Verify bool `json:"client_verifies_certificates,omitempty"`
 	// ForwardEnd (forward reachable): how the direct connections end: "" orderly, reset-by-application, reset-by-target
 	ForwardEnd string `json:"direct_connections_end,omitempty"`
+	// ForwardUnix (forward reachable): the forward address is a unix-domain socket given with its absolute path
+	// (unix:///dir/name.sock) instead of a TCP address
+	ForwardUnix bool `json:"forward_address_is_a_unix_socket,omitempty"`
 	// Stray: the client also listens for a channel that no server offers; while a logical connection is held open on
 	// the shared session a request for that channel is made (and refused): the session and the held connection stay
 	Stray bool `json:"request_for_a_channel_nobody_offers_meanwhile,omitempty"`
@@ -382,7 +385,11 @@ func runCase(d caseDesc, abandonBound time.Duration) (problem string, inconclusi
 				tc.Conn.Close()
 			}
 		}
-		fwdTgt = vlib.NewTarget("forward", handler)
+		if d.ForwardUnix {
+			fwdTgt = vlib.NewUnixTarget("forward", handler)
+		} else {
+			fwdTgt = vlib.NewTarget("forward", handler)
+		}
 		defer fwdTgt.Close()
 		f := addr.MustParseAddress(fwdTgt.URL())
 		al.Forward = &f
@@ -597,6 +604,9 @@ func describe(d caseDesc) []string {
 	if d.Stray {
 		labels = append(labels, "refused-request-meanwhile")
 	}
+	if d.ForwardUnix {
+		labels = append(labels, "forward-address-unix-socket")
+	}
 	return labels
 }
 
@@ -632,6 +642,7 @@ func TestPolicy(t *testing.T) {
 		d.Forward = []string{"none", "none", "reachable", "unreachable"}[rapid.IntRange(0, 3).Draw(rt, "forward")]
 		if d.Forward == "reachable" {
 			d.ForwardEnd = []string{"", "reset-by-application", "reset-by-target"}[rapid.IntRange(0, 2).Draw(rt, "forwardEnd")]
+			d.ForwardUnix = d.ForwardEnd == "" && rapid.Bool().Draw(rt, "forwardUnix")
 		}
 		d.K = rapid.IntRange(1, 5).Draw(rt, "k")
 		d.Stray = rapid.IntRange(0, 2).Draw(rt, "stray") == 0
@@ -775,6 +786,8 @@ func TestDirectConnectionsHoweverTheyEnd(t *testing.T) {
 	for _, end := range []string{"", "reset-by-application", "reset-by-target"} {
 		for _, k := range []int{1, 3} {
 			d := caseDesc{Ups: []upSpec{{Kind: "tcp", Fate: fWorks}, {Kind: "http", Fate: fWorks}}, Forward: "reachable", ForwardEnd: end, K: k, Loss: "none"}
+			// the forward address of the orderly cases is a unix-domain socket given with its absolute path
+			d.ForwardUnix = end == ""
 			problem, inconclusive := runCase(d, 15*time.Second)
 			if inconclusive {
 				vlib.Rec.Inconclusive("setup")
